@@ -8,6 +8,7 @@ CONSTANTS
  T = 2
  Strict = TRUE
  Mode = "tamper"
- DevC = {2}
-INVARIANTS Interp
+ HonP <- PolysConst
+ DevP <- PolysConst
+INVARIANTS Holds Interp
 CHECK_DEADLOCK FALSE
